@@ -130,7 +130,9 @@ theorem shiftOp_fixed_spec (s : State) (h : Inv s) (sgn : Int) (vals : Option (L
       abs (shiftOp fixed s sgn vals v0 d).1
         = { abs s with t0 := (abs s).t0 + sgn * v0, dt := (abs s).dt + sgn * d }) ∧
     ((shiftOp fixed s sgn vals v0 d).2 ≠ none → (shiftOp fixed s sgn vals v0 d).1 = s) ∧
-    ((shiftOp fixed s sgn vals v0 d).2 = none ↔ ∀ vs, vals = some vs → vs.length = s.cur.samples.length) ∧
+    ((shiftOp fixed s sgn vals v0 d).2 = none ↔
+      (∀ vs, vals = some vs → vs.length = s.cur.samples.length) ∧
+      collapses (sget s.store s.cur.dt) (sgn * d) = false) ∧
     Frame s (shiftOp fixed s sgn vals v0 d).1 := by
   obtain ⟨hcur, hkept⟩ := h
   have hsam := hcur.2.2.2.1
@@ -138,6 +140,7 @@ theorem shiftOp_fixed_spec (s : State) (h : Inv s) (sgn : Int) (vals : Option (L
   | none =>
     have hd0 : d = 0 := hd rfl
     subst hd0
+    have hcz : collapses (sget s.store s.cur.dt) (sgn * 0) = false := by simp [collapses]
     have hs : s.cur.samples.map (· + sgn * v0)
         = affine (sget s.store s.cur.t0 + sgn * v0) (sget s.store s.cur.dt + sgn * 0)
             (s.cur.samples.map (· + sgn * v0)).length := by
@@ -147,7 +150,7 @@ theorem shiftOp_fixed_spec (s : State) (h : Inv s) (sgn : Int) (vals : Option (L
     have hI := inv_setSampling ⟨hcur, hkept⟩ _ s.cur.unit s.cur.rate _ _ hs s.kept (fun a ha => Or.inr ha)
     have hspec := setSampling_spec s.store (s.cur.samples.map (· + sgn * v0)) s.cur.unit s.cur.rate
       (sget s.store s.cur.t0 + sgn * v0) (sget s.store s.cur.dt + sgn * 0)
-    simp only [shiftOp, fixed, Bool.false_eq_true, if_false, if_true]
+    simp only [shiftOp, fixed, Bool.false_eq_true, if_false, if_true, hcz]
     refine ⟨hI, ?_, ?_, ?_, ⟨⟨_, hspec.1⟩, fun a ha => ha⟩⟩
     · intro _
       simp only [abs]
@@ -157,25 +160,35 @@ theorem shiftOp_fixed_spec (s : State) (h : Inv s) (sgn : Int) (vals : Option (L
   | some vs =>
     have hvs := hv vs rfl
     by_cases hfit : vs.length = s.cur.samples.length
-    · have hs : List.zipWith (fun x v => x + sgn * v) s.cur.samples vs
-          = affine (sget s.store s.cur.t0 + sgn * v0) (sget s.store s.cur.dt + sgn * d)
-              (List.zipWith (fun x v => x + sgn * v) s.cur.samples vs).length := by
-        rw [List.length_zipWith, hfit, Nat.min_self]
-        conv_lhs => rw [hsam, hvs, hfit]
-        exact ramp_samples _ _ _ _ _ _
-      have hI := inv_setSampling ⟨hcur, hkept⟩ _ s.cur.unit s.cur.rate _ _ hs s.kept (fun a ha => Or.inr ha)
-      have hspec := setSampling_spec s.store (List.zipWith (fun x v => x + sgn * v) s.cur.samples vs)
-        s.cur.unit s.cur.rate (sget s.store s.cur.t0 + sgn * v0) (sget s.store s.cur.dt + sgn * d)
-      have hb : (vs.length == s.cur.samples.length) = true := by simpa using hfit
-      simp only [shiftOp, fixed, Bool.false_eq_true, if_false, hb, if_true]
-      refine ⟨hI, ?_, ?_, ?_, ⟨⟨_, hspec.1⟩, fun a ha => ha⟩⟩
-      · intro _
-        simp only [abs]
-        rw [hspec.2.2.2.1, hspec.2.2.2.2.1, hspec.2.1, hspec.2.2.1, List.length_zipWith, hfit, Nat.min_self]
-      · intro hne; exact absurd rfl hne
-      · constructor
-        · intro _ vs' hvs'; cases hvs'; exact hfit
+    · have hb : (vs.length == s.cur.samples.length) = true := by simpa using hfit
+      cases hcol : collapses (sget s.store s.cur.dt) (sgn * d) with
+      | true =>
+        simp only [shiftOp, fixed, Bool.false_eq_true, if_false, hb, if_true, hcol]
+        refine ⟨⟨hcur, hkept⟩, ?_, ?_, ?_, frame_refl s⟩
+        · intro hn; cases hn
         · intro _; trivial
+        · constructor
+          · intro hn; cases hn
+          · intro hall; exact absurd hall.2 (by simp)
+      | false =>
+        have hs : List.zipWith (fun x v => x + sgn * v) s.cur.samples vs
+            = affine (sget s.store s.cur.t0 + sgn * v0) (sget s.store s.cur.dt + sgn * d)
+                (List.zipWith (fun x v => x + sgn * v) s.cur.samples vs).length := by
+          rw [List.length_zipWith, hfit, Nat.min_self]
+          conv_lhs => rw [hsam, hvs, hfit]
+          exact ramp_samples _ _ _ _ _ _
+        have hI := inv_setSampling ⟨hcur, hkept⟩ _ s.cur.unit s.cur.rate _ _ hs s.kept (fun a ha => Or.inr ha)
+        have hspec := setSampling_spec s.store (List.zipWith (fun x v => x + sgn * v) s.cur.samples vs)
+          s.cur.unit s.cur.rate (sget s.store s.cur.t0 + sgn * v0) (sget s.store s.cur.dt + sgn * d)
+        simp only [shiftOp, fixed, Bool.false_eq_true, if_false, hb, if_true, hcol]
+        refine ⟨hI, ?_, ?_, ?_, ⟨⟨_, hspec.1⟩, fun a ha => ha⟩⟩
+        · intro _
+          simp only [abs]
+          rw [hspec.2.2.2.1, hspec.2.2.2.2.1, hspec.2.1, hspec.2.2.1, List.length_zipWith, hfit, Nat.min_self]
+        · intro hne; exact absurd rfl hne
+        · constructor
+          · intro _; exact ⟨fun vs' hvs' => by cases hvs'; exact hfit, trivial⟩
+          · intro _; trivial
     · have hb : (vs.length == s.cur.samples.length) = false := by simpa using hfit
       simp only [shiftOp, fixed, Bool.false_eq_true, if_false, hb]
       refine ⟨⟨hcur, hkept⟩, ?_, ?_, ?_, frame_refl s⟩
@@ -183,8 +196,7 @@ theorem shiftOp_fixed_spec (s : State) (h : Inv s) (sgn : Int) (vals : Option (L
       · intro _; trivial
       · constructor
         · intro hn; cases hn
-        · intro hall; exact absurd (hall vs rfl) hfit
-
+        · intro hall; exact absurd (hall.1 vs rfl) hfit
 
 theorem abs_ext {a b : Abs} (h0 : a.t0 = b.t0) (h1 : a.dt = b.dt) (h2 : a.n = b.n) (h3 : a.unit = b.unit) :
     a = b := by
@@ -215,7 +227,7 @@ theorem step_ok (s : State) (h : Inv s) (op : Op) : StepOK s op (step fixed s op
   | addS v =>
     have hsp := shiftOp_fixed_spec s h 1 none (convScalar s.cur.unit v) 0 (by intro vs hvs; cases hvs) (fun _ => rfl)
     have hnone : (shiftOp fixed s 1 none (convScalar s.cur.unit v) 0).2 = none :=
-      hsp.2.2.2.1.mpr (by intro vs hvs; cases hvs)
+      hsp.2.2.2.1.mpr ⟨(by intro vs hvs; cases hvs), (by simp [collapses])⟩
     refine ⟨hsp.1, ?_, hsp.2.2.1, hsp.2.2.2.2⟩
     show abs (shiftOp fixed s 1 none (convScalar s.cur.unit v) 0).1 = _
     rw [hsp.2.1 hnone]
@@ -223,7 +235,7 @@ theorem step_ok (s : State) (h : Inv s) (op : Op) : StepOK s op (step fixed s op
   | subS v =>
     have hsp := shiftOp_fixed_spec s h (-1) none (convScalar s.cur.unit v) 0 (by intro vs hvs; cases hvs) (fun _ => rfl)
     have hnone : (shiftOp fixed s (-1) none (convScalar s.cur.unit v) 0).2 = none :=
-      hsp.2.2.2.1.mpr (by intro vs hvs; cases hvs)
+      hsp.2.2.2.1.mpr ⟨(by intro vs hvs; cases hvs), (by simp [collapses])⟩
     refine ⟨hsp.1, ?_, hsp.2.2.1, hsp.2.2.2.2⟩
     show abs (shiftOp fixed s (-1) none (convScalar s.cur.unit v) 0).1 = _
     rw [hsp.2.1 hnone]
@@ -245,12 +257,24 @@ theorem step_ok (s : State) (h : Inv s) (op : Op) : StepOK s op (step fixed s op
         (by intro vs hvs; cases hvs; exact hro.1) (by intro hn; cases hn)
       refine ⟨hsp.1, ?_, hsp.2.2.1, hsp.2.2.2.2⟩
       by_cases hfit : (convRamp s.cur.unit r).length = s.cur.samples.length
-      · have hnone := hsp.2.2.2.1.mpr (by intro vs hvs; cases hvs; exact hfit)
-        rw [hsp.2.1 hnone]
-        simp only [absStep, abs_unit, hr, abs_n, hfit, if_true]
-        apply abs_ext <;> simp
+      · cases hcol : collapses (sget s.store s.cur.dt) (1 * d) with
+        | false =>
+          have hnone := hsp.2.2.2.1.mpr ⟨(by intro vs hvs; cases hvs; exact hfit), hcol⟩
+          rw [hsp.2.1 hnone]
+          have hcol' : collapses (abs s).dt (1 * d) = false := hcol
+          simp only [absStep, abs_unit, hr, abs_n, hfit, if_true, hcol', Bool.false_eq_true, if_false]
+          apply abs_ext <;> simp
+        | true =>
+          have hsome : (shiftOp fixed s 1 (some (convRamp s.cur.unit r)) ((convRamp s.cur.unit r).headD 0) d).2 ≠ none := by
+            intro hn
+            have := (hsp.2.2.2.1.mp hn).2
+            rw [hcol] at this
+            cases this
+          rw [hsp.2.2.1 hsome]
+          have hcol' : collapses (abs s).dt (1 * d) = true := hcol
+          simp only [absStep, abs_unit, hr, abs_n, hfit, if_true, hcol']
       · have hsome : (shiftOp fixed s 1 (some (convRamp s.cur.unit r)) ((convRamp s.cur.unit r).headD 0) d).2 ≠ none := by
-          intro hn; exact hfit (hsp.2.2.2.1.mp hn _ rfl)
+          intro hn; exact hfit ((hsp.2.2.2.1.mp hn).1 _ rfl)
         rw [hsp.2.2.1 hsome]
         simp only [absStep, abs_unit, hr, abs_n, hfit, if_false]
   | subR r =>
@@ -270,12 +294,24 @@ theorem step_ok (s : State) (h : Inv s) (op : Op) : StepOK s op (step fixed s op
         (by intro vs hvs; cases hvs; exact hro.1) (by intro hn; cases hn)
       refine ⟨hsp.1, ?_, hsp.2.2.1, hsp.2.2.2.2⟩
       by_cases hfit : (convRamp s.cur.unit r).length = s.cur.samples.length
-      · have hnone := hsp.2.2.2.1.mpr (by intro vs hvs; cases hvs; exact hfit)
-        rw [hsp.2.1 hnone]
-        simp only [absStep, abs_unit, hr, abs_n, hfit, if_true]
-        apply abs_ext <;> simp <;> ring
+      · cases hcol : collapses (sget s.store s.cur.dt) (-1 * d) with
+        | false =>
+          have hnone := hsp.2.2.2.1.mpr ⟨(by intro vs hvs; cases hvs; exact hfit), hcol⟩
+          rw [hsp.2.1 hnone]
+          have hcol' : collapses (abs s).dt (-1 * d) = false := hcol
+          simp only [absStep, abs_unit, hr, abs_n, hfit, if_true, hcol', Bool.false_eq_true, if_false]
+          apply abs_ext <;> simp <;> ring
+        | true =>
+          have hsome : (shiftOp fixed s (-1) (some (convRamp s.cur.unit r)) ((convRamp s.cur.unit r).headD 0) d).2 ≠ none := by
+            intro hn
+            have := (hsp.2.2.2.1.mp hn).2
+            rw [hcol] at this
+            cases this
+          rw [hsp.2.2.1 hsome]
+          have hcol' : collapses (abs s).dt (-1 * d) = true := hcol
+          simp only [absStep, abs_unit, hr, abs_n, hfit, if_true, hcol']
       · have hsome : (shiftOp fixed s (-1) (some (convRamp s.cur.unit r)) ((convRamp s.cur.unit r).headD 0) d).2 ≠ none := by
-          intro hn; exact hfit (hsp.2.2.2.1.mp hn _ rfl)
+          intro hn; exact hfit ((hsp.2.2.2.1.mp hn).1 _ rfl)
         rw [hsp.2.2.1 hsome]
         simp only [absStep, abs_unit, hr, abs_n, hfit, if_false]
   | mul k =>
@@ -501,8 +537,8 @@ theorem accepted_ops (s : State) :
     (∀ a b c, c ≠ 0 → (step fixed s (.slice a b c)).2 = none) ∧
     (step fixed s .copy).2 = none ∧ (∀ u, (step fixed s (.convert u)).2 = none) := by
   refine ⟨?_, ?_, ?_, ?_, ?_, rfl, fun _ => rfl⟩
-  · intro v; simp [step, shiftOp, fixed]
-  · intro v; simp [step, shiftOp, fixed]
+  · intro v; simp [step, shiftOp, fixed, collapses]
+  · intro v; simp [step, shiftOp, fixed, collapses]
   · intro k hk; simp [step, fixed, hk]
   · intro k hk h0 h1; simp [step, fixed, hk, h0, h1]
   · intro a b c hc; simp [step, fixed, hc]
